@@ -75,6 +75,9 @@ func c05Decl(r *Rng) *DeclSpec {
 				}
 				o.Default = []BStr{BStr(t)}
 			}
+			if (o.Kind == "string" || o.Kind == "[]string") && len(o.Choices) == 0 && len(o.Default) > 0 && xr.Chance(1, 8) {
+				o.Default[0] = BStr(xr.Pick([]string{"$5.00", "${name}", "$USER> ", "100%", "a$b"})) // a default tag is taken as written
+			}
 			// env on more options, delimiters on multi-valued ones
 			if o.Env == "" && !isFuncKind(o.Kind) && xr.Chance(1, 3) {
 				o.Env = "E_X_" + strings.ToUpper(o.Field)
@@ -282,6 +285,9 @@ func (propC05) Gen(r *Rng, idx int, tier string) *Scenario {
 					if val == "" || strings.ContainsAny(val, "\"\\") {
 						val = "x" // (quotes and backslashes have a meaning of their own in an INI value)
 					}
+				}
+				if o.Kind == "string" && len(o.Choices) == 0 && sr.Chance(1, 12) {
+					val = sr.Pick([]string{"C:\\data\\", "back\\", "a\\b"}) // a backslash, also the last character, is an ordinary character of an unquoted value
 				}
 				if o.Kind == "string" && len(o.Choices) == 0 && sr.Chance(1, 10) {
 					// a value longer than any read buffer, and not a repetition of one
